@@ -382,3 +382,9 @@ _quick("C09", "C09_sendstream", "four persisted records in the replication ring,
 _quick("C03", "C03_longgrant", "a request queued on an exclusive or two-slot key (Expried > 0 or 0) that has waited 10 s (seconds wheel) or 50 s (long-wait table) is granted when a holder leaves; its own unlock, three more sweeps and a third party's LOCK follow: its LOCK has exactly one reply (SUCCED) throughout, and the slot it gave back is free", ["-witness", "1"])
 
 _quick("C07", "C07_sharedvalue", "a key of capacity 5 whose first holder sets a value with E = 2 s (or 120 s); a second holder joins without a value operation, or the setter renews with the update flag, with E = 120 s; all persisted at once; restart 5 s later (the setter's first record has run out and is skipped): the surviving hold is restored with the key's value", ["-witness", "1"])
+
+_quick("C15", "C15_shiftover", "a value of 1..3 symbolic bytes (with or without a property block) shifted by len+1 .. len+12 bytes (past the value, the frame header, the whole stored frame), then an APPEND: the register holds the empty value, the reply carries the value from before, the APPEND builds on the empty value", ["-witness", "6"])
+
+_quick("C06", "C06_msunlimited", "a hold with the unlimited-expiry flag combined with the millisecond flag, the minute flag or neither and Expried 500 / 3000 / 7000 / 0xffff; the clock runs Expried ms + 12 s through the millisecond slot sweepers and the second wheel: no EXPRIED, the hold is still there and its unlock is accepted (symbolic executor only)", ["-witness", "0"], native=False)
+
+_quick("C06", "C06_msupdate", "a hold with a millisecond expiry E in {1500, 2999} ms, updated at E/2 ms (update flag, Count changed) with the same millisecond terms or with a seconds expiry of 10 s; the sweeper of the original slot runs at E ms, later sweepers and per-second sweeps follow: exactly one EXPRIED in [update + E', update + E' + 2 s] (symbolic executor only)", ["-witness", "0"], reach=["updated"], native=False)
